@@ -43,6 +43,10 @@ class Prim:
     def __init__(self, kind, **p):
         self.kind, self.p = kind, p
 
+    def Mf(self):
+        """the rotation of a rectangle / box / ellipsoid / cylinder: integer matrix M over the denominator N (1 for cube rotations)"""
+        return np.array(self.p["M"], dtype=float) / float(self.p.get("N", 1))
+
     # ---- arguments for the library call under a similarity lift (s, R, t): x -> s R x + t
     def args(self, lift):
         s, R, t = lift
@@ -60,10 +64,10 @@ class Prim:
         if k == "triangle":
             return [np.ascontiguousarray(np.array([P(v) for v in p["V"]]))]
         if k == "rectangle":
-            M = np.array(p["M"], dtype=float)
+            M = self.Mf()
             return [P(p["c"]), np.ascontiguousarray((R @ M[:, :2]).T), np.ascontiguousarray(s * np.array(p["l"], dtype=float))]
         if k in ("box", "ellipsoid", "cylinder"):
-            T = np.eye(4); T[:3, :3] = R @ np.array(p["M"], dtype=float); T[:3, 3] = P(p["c"])
+            T = np.eye(4); T[:3, :3] = R @ self.Mf(); T[:3, 3] = P(p["c"])
             T = _buf((k, "T"), T)
             if k == "box":
                 return [T, np.ascontiguousarray(s * np.array(p["size"], dtype=float))]
@@ -91,15 +95,15 @@ class Prim:
         if k == "triangle":
             return [A(v) for v in p["V"]]
         if k == "rectangle":
-            M, c, l = np.array(p["M"]), np.array(p["c"]), p["l"]
-            if l[0] % 2 or l[1] % 2:
+            M, c, l, N = np.array(p["M"]), np.array(p["c"]), p["l"], int(p.get("N", 1))
+            if l[0] % (2 * N) or l[1] % (2 * N):
                 return None
-            return [A(c + a * (l[0] // 2) * M[:, 0] + b * (l[1] // 2) * M[:, 1]) for a in (-1, 1) for b in (-1, 1)]
+            return [A(c + a * (l[0] // (2 * N)) * M[:, 0] + b * (l[1] // (2 * N)) * M[:, 1]) for a in (-1, 1) for b in (-1, 1)]
         if k == "box":
-            M, c, sz = np.array(p["M"]), np.array(p["c"]), p["size"]
-            if any(x % 2 for x in sz):
+            M, c, sz, N = np.array(p["M"]), np.array(p["c"]), p["size"], int(p.get("N", 1))
+            if any(x % (2 * N) for x in sz):
                 return None
-            return [A(c + M @ (np.array([a, b, d]) * np.array(sz) // 2)) for a in (-1, 1) for b in (-1, 1) for d in (-1, 1)]
+            return [A(c + M @ (np.array([a, b, d]) * np.array(sz) // (2 * N))) for a in (-1, 1) for b in (-1, 1) for d in (-1, 1)]
         return None
 
     # ---- distance from a lattice-frame point to the primitive (float; the "on primitive" residual)
@@ -127,7 +131,7 @@ class Prim:
             if k == "circle":
                 return math.hypot(rho - p["r"], h)
             return math.hypot(max(0.0, rho - p["r"]), h)
-        M = np.array(p["M"], dtype=float)
+        M = self.Mf()
         ql = M.T @ (q - c)
         if k == "cylinder":
             rho = math.hypot(ql[0], ql[1])
@@ -142,7 +146,7 @@ class Prim:
         k, p = self.kind, self.p
         if k == "triangle":
             return np.array(p["V"], dtype=float)
-        M, c = np.array(p["M"], dtype=float), np.array(p["c"], dtype=float)
+        M, c = self.Mf(), np.array(p["c"], dtype=float)
         if k == "rectangle":
             l = p["l"]
             return np.array([c + a * (l[0] / 2) * M[:, 0] + b * (l[1] / 2) * M[:, 1] for a in (-1, 1) for b in (-1, 1)])
@@ -164,7 +168,7 @@ class Prim:
             if k == "disk":
                 nn = unit(p["n"]); t = n - (n @ nn) * nn
                 return float(n @ c) + p["r"] * float(np.linalg.norm(t))
-            M = np.array(p["M"], dtype=float)
+            M = self.Mf()
             sp = {"kind": "ellipsoid", "a": p["radii"][0], "b": p["radii"][1], "c": p["radii"][2]} if k == "ellipsoid" \
                 else {"kind": "cylinder", "r": p["r"], "h": p["h"]}
             return float(n @ c) + S.support_val(sp, M.T @ n)
@@ -263,6 +267,12 @@ def rand_prim(kind, rng, reach=5):
             n = np.cross(np.array(V[1]) - np.array(V[0]), np.array(V[2]) - np.array(V[0]))
             if n.any():
                 return Prim(kind, V=V)
+    if kind in ("rectangle", "box") and rng.random() < 0.3:
+        # a rational rotation (integer quaternion, denominator 3 or 5): general relative orientation with integer vertices
+        M, N = rng.choice([r for r in S.RATIONAL if r[1] in (3, 5)])
+        if kind == "rectangle":
+            return Prim(kind, c=P(), M=M, N=N, l=[2 * N * rng.randint(1, 2), 2 * N * rng.randint(1, 2)])
+        return Prim(kind, c=P(), M=M, N=N, size=[2 * N * rng.randint(1, 2) for _ in range(3)])
     if kind == "rectangle":
         return Prim(kind, c=P(), M=cube(), l=[2 * rng.randint(1, 3), 2 * rng.randint(1, 3)])
     if kind == "box":
@@ -305,9 +315,13 @@ def relate(A, B, rng):
     g = math.gcd(math.gcd(abs(int(a[0])), abs(int(a[1]))), abs(int(a[2]))) or 1
     a = (a // g).astype(int)
     sgn = -1 if how == "anti" else 1
+    a0 = a.copy()
+    incident = False
     if how == "perp":
         u, v = ortho_int(a)
         a = u if rng.random() < 0.5 else v
+        incident = rng.random() < 0.5       # axes perpendicular AND anchors related: a line (segment) lying exactly in a plane
+                                            # (rectangle, triangle plane, disk), a plane containing the axis of the other primitive
     if "d" in B.p:
         B.p["d"] = [int(sgn * x) for x in a]
     elif "n" in B.p:
@@ -317,11 +331,22 @@ def relate(A, B, rng):
         B.p["b"] = [int(B.p["a"][i] + sgn * k * a[i]) for i in range(3)]
     elif "M" in B.p and "M" in A.p:
         B.p["M"] = [list(map(int, r)) for r in np.array(A.p["M"])]
-    if how in ("coplanar", "samepose"):
+        nb, na = int(B.p.get("N", 1)), int(A.p.get("N", 1))
+        if nb != na:                                   # sizes stay multiples of twice the denominator (integer vertices)
+            for key in ("l", "size"):
+                if key in B.p:
+                    B.p[key] = [int(x) // nb * na for x in B.p[key]]
+            if na != 1:
+                B.p["N"] = na
+            else:
+                B.p.pop("N", None)
+    if how in ("coplanar", "samepose") or incident:
         # anchors related: same anchor, or displaced within the plane orthogonal to the axis / along the axis
-        u, v = ortho_int(a)
+        u, v = ortho_int(a0 if incident else a)
         base = A.anchor().astype(int)
-        if how == "coplanar":
+        if incident and A.kind in ("line", "line_segment"):
+            off = rng.randint(-2, 2) * a0                     # a point of A's own line
+        elif how == "coplanar" or incident:
             off = rng.randint(-3, 3) * u + rng.randint(-3, 3) * v
         else:
             off = np.zeros(3, dtype=int)
